@@ -845,7 +845,9 @@ class Images(productmd.common.MetadataBase):
             if not section.startswith("images-"):
                 continue
             platform = section[7:]
-            if platform != self._metadata.tree.arch and platform.endswith("-%s" % self._metadata.tree.arch):
+            if (platform not in self._metadata.tree.platforms and platform != self._metadata.tree.arch
+                    and platform.endswith("-%s" % self._metadata.tree.arch)):
+                # legacy section name "images-<platform>-<arch>"; a platform listed under its full name is kept as written
                 platform = platform[:-len(self._metadata.tree.arch)-1]
             self.images[platform] = {}
             for image, path in parser.items(section):
